@@ -74,6 +74,26 @@ PROPS = {
         "namespace": "Richchk.Props.C08",
         "trusted": ["hand model Model/StrEdit.lean of the two editors and the generator, tied by the addstr/tostrx correspondence; Python str == its ASCII bytes for 7-bit text"],
     },
+    "C09": {
+        "targets": ["RichchkModel.Props.C09"],
+        "harness": "alloc_h",
+        "theorems_file": "RichchkModel/Props/C09.lean",
+        "namespace": "Richchk.Props.C09",
+        "trusted": [
+            "Spec/Consts.lean: slot ranges of the format and 'Anywhere is location 64'",
+            "hand model Model/Alloc.lean + Model/Editors.lean of the four editors over one allocator, tied by the alloc correspondence with the OBSERVED set iteration order; Python set/dict membership by (hash, ==) with no collisions of distinct keys",
+        ],
+    },
+    "C14": {
+        "targets": ["RichchkModel.Props.C14"],
+        "harness": "alloc_h",
+        "theorems_file": "RichchkModel/Props/C14.lean",
+        "namespace": "Richchk.Props.C14",
+        "trusted": [
+            "set iteration order is modelled as an arbitrary list order (a parameter, universally quantified via List.Perm)",
+            "whole-save determinism beyond the allocator (reference rewriting follows the allocation, string collection is an ordered walk) is checked by the cross-process scenario run, not proved",
+        ],
+    },
     "C12": {
         "targets": ["RichchkModel.Props.C12"],
         "harness": "codecs_h",
@@ -153,7 +173,7 @@ def regenerate():
     return gaps, summary
 
 
-EXTRA_TRANSLATORS = ["tr_codecs", "tr_trig"]  # each module exposes generate(gen_dir, build_dir, write_if_changed)
+EXTRA_TRANSLATORS = ["tr_codecs", "tr_trig", "tr_consts"]  # each module exposes generate(gen_dir, build_dir, write_if_changed)
 
 
 def lake_build(targets, timeout=3000):
